@@ -98,17 +98,17 @@ props["C11"] = dict(title="Arrays are bounds-checked shared references; len/appe
   assumptions=["oracle: list model of DESIGN E.7", "a string index that is an integer numeral is coerced by the code and not mentioned by the statement: not asserted", "A-growslice: append follows runtime.growslice of go1.23 (size-class rounding)"]+A_VALUES+A_COMMON[:3],
   quick=[J(I,"VH_array",1,s) for s in (0,1,3)]+[J(I,"VH_array",2,2), J(I,"VH_array",2,3)]+[J(I,"VH_arrayBig",n,sp) for n in (0,1,3,5,7,31,32,33,63,64,65,127,128,129,200) for sp in (0,1,7,64)],
   thorough=[J(I,"VH_arrayBig",n,sp) for n in (0,1,2,3,5,6,7,8,9,15,16,17,31,32,33,63,64,65,100,127,128,129,255,256,257,511,512,513,1023,1024,1025,1100) for sp in (0,1,7,64,600)]+[J(I,"VH_array",1,s) for s in (0,1,2,3)]+[J(I,"VH_array",2,s) for s in (1,2,3)]+[J(I,"VH_array",3,2, max_instrs=8000000)])
-obj_ids13 = "initialisers-run-in-source-order|every-initialiser-ran-once|same-listing-every-time|diagnostic-text-repeats|initialisers-run-in-the-same-order-every-time|same-output-every-time|duplicate-key-.*"
+obj_ids13 = "initialisers-run-in-source-order|every-initialiser-ran-once|same-listing-every-time|diagnostic-text-repeats|initialisers-run-in-the-same-order-every-time|same-output-every-time|duplicate-key-.*|each-read-consumes-exactly-the-next-line|reads-succeed"
 props["C12"] = dict(title="Objects are shared key->value maps with consistent read, write, delete, listing",
   bounds="object literals with 0-3 distinct keys parsed by the real parser, then histories of 1 (thorough 2) operations (read/write/delete of present and absent keys through either alias, key and value listing, print, property access on a non-object); every Go map range takes a fresh iteration order (rotations of insertion order; thorough: all permutations)",
   assumptions=["oracle: map model of DESIGN E.7", "A-maporder: counterexamples are searched over the orders the go1.23 runtime produces for small maps (rotations); thorough additionally explores every permutation"]+A_COMMON[:3],
   quick=[J(I,"VH_object",k,1) for k in (0,1,2,3)]+[J(I,"VH_printShared",w) for w in (1,2,3,4)], thorough=[J(I,"VH_printShared",w) for w in (1,2,3,4)]+[J(I,"VH_object",k,s, all_perms=True) for k in (0,1,2,3) for s in (1,2)],
   skip_ids="^("+obj_ids13+")$")
 props["C13"] = dict(title="Execution is deterministic",
-  bounds="every range-over-map site reachable in the repo (object literal evaluation, key listing, value listing, ObjectLiteral.String in the missing-property diagnostic) with 2-3 keys (also with one name written twice: VH_dupKeys), each loop under an independent iteration order; plus the static inventory of nondeterminism sources (any call outside the modelled stubs makes the run inconclusive)",
+  bounds="every range-over-map site reachable in the repo (object literal evaluation, key listing, value listing, ObjectLiteral.String in the missing-property diagnostic) with 2-3 keys (also with one name written twice: VH_dupKeys), each loop under an independent iteration order; two reads of a CRLF stdin under every way the operating system may cut the bytes into reads, when the line splitting is the repository's own code (VH_inputCRLF); plus the static inventory of nondeterminism sources (any call outside the modelled stubs makes the run inconclusive)",
   assumptions=["A-maporder as C12", "the clock built-in is excluded by the property", "other sources (goroutines, select, rand, pointer formatting) are excluded by inventory: the executor refuses any callee without a model"],
-  quick=[J(I,"VH_object",k,1) for k in (2,3)]+[J(I,"VH_diagText",2), J(I,"VH_diagText",3), J(I,"VH_dupKeys",2), J(I,"VH_dupKeys",3)],
-  thorough=[J(I,"VH_dupKeys",2, all_perms=True), J(I,"VH_dupKeys",3, all_perms=True)]+[J(I,"VH_object",k,s, all_perms=True) for k in (2,3) for s in (1,2)]+[J(I,"VH_diagText",2, all_perms=True), J(I,"VH_diagText",3, all_perms=True)],
+  quick=[J(I,"VH_object",k,1) for k in (2,3)]+[J(I,"VH_diagText",2), J(I,"VH_diagText",3), J(I,"VH_dupKeys",2), J(I,"VH_dupKeys",3), J("main","VH_inputCRLF",2)],
+  thorough=[J("main","VH_inputCRLF",2), J(I,"VH_dupKeys",2, all_perms=True), J(I,"VH_dupKeys",3, all_perms=True)]+[J(I,"VH_object",k,s, all_perms=True) for k in (2,3) for s in (1,2)]+[J(I,"VH_diagText",2, all_perms=True), J(I,"VH_diagText",3, all_perms=True)],
   only_ids="^("+obj_ids13+")$")
 
 # ---------------- C14 ----------------
@@ -151,8 +151,8 @@ props["C18"] = dict(title="Meaning is invariant under layout, digit script, syno
 props["C19"] = dict(title="Exit status and output streams classify every run correctly",
   bounds="the real main/runFile/run with 0-3 extra arguments, script names of 1-4 code points over {a,b,n,.,/} (every extension shape), present/absent file, one concrete script per outcome class (clean, lexical error, syntax error, runtime error at top level and inside a loop), scripts of 1-2 (thorough 3) lines drawn from a pool of 12 (clean, 6 lexical/syntax errors incl. literals no double can hold, 3 runtime errors) classified by first principles (VH_classify), and stdin of 0-3 lines with/without final newline read by two input calls, the kernel handing the lines over in chunks of every size",
   assumptions=["A-os: os.Args / os.ReadFile / os.Exit / filepath.Ext are modelled (Ext exactly, on code points); A-stdin: a bufio.Reader pulls a chunk of 1..all remaining lines and keeps the rest in that reader object", "the whole pipeline runs on concrete scripts here; the per-phase contracts are C08/C09/C06", "natively the scenarios are replayed through the built binary"],
-  quick=[J("main","VH_cli",0,1), J("main","VH_cli",1,3), J("main","VH_cli",1,4), J("main","VH_cli",2,2), J("main","VH_cli",3,1)]+[J("main","VH_outcome",c) for c in range(5)]+[J("main","VH_input",n,f) for n in (0,1,2,3) for f in (0,1)]+[J("main","VH_classify",1), J("main","VH_classify",2)],
-  thorough=[J("main","VH_classify",1), J("main","VH_classify",2), J("main","VH_classify",3)]+[J("main","VH_cli",0,1)]+[J("main","VH_cli",1,n) for n in (1,2,3,4,5)]+[J("main","VH_cli",2,2), J("main","VH_cli",3,1)]+[J("main","VH_outcome",c) for c in range(5)]+[J("main","VH_input",n,f) for n in (0,1,2,3) for f in (0,1)])
+  quick=[J("main","VH_cli",0,1), J("main","VH_cli",1,3), J("main","VH_cli",1,4), J("main","VH_cli",2,2), J("main","VH_cli",3,1)]+[J("main","VH_outcome",c) for c in range(5)]+[J("main","VH_input",n,f) for n in (0,1,2,3) for f in (0,1)]+[J("main","VH_classify",1), J("main","VH_classify",2), J("main","VH_inputCRLF",2)],
+  thorough=[J("main","VH_inputCRLF",2), J("main","VH_classify",1), J("main","VH_classify",2), J("main","VH_classify",3)]+[J("main","VH_cli",0,1)]+[J("main","VH_cli",1,n) for n in (1,2,3,4,5)]+[J("main","VH_cli",2,2), J("main","VH_cli",3,1)]+[J("main","VH_outcome",c) for c in range(5)]+[J("main","VH_input",n,f) for n in (0,1,2,3) for f in (0,1)])
 props["C20"] = dict(title="In the REPL a failed line never affects later lines; expression values echo",
   bounds="the real runPrompt/run on sessions of 1-2 (thorough 3) lines drawn from a pool of 8 representative lines (bare expression, print, lexical error, syntax error, two runtime errors, declaration, built-in call): plus sessions that repeat one line 12 (thorough 40) times before any other line (state building up over a session); plus sessions whose first line is 4095-4097 or 70000 bytes long (thorough: around 8192 and 65536, and 140000) followed by two lines (VH_replLong: buffer boundaries of the line reader); the session's stdout/stderr must be the concatenation of the responses each line gives as the only line of a fresh process (package-level state restored to its post-initialisation value)",
   assumptions=["A-stdin: bufio.Scanner delivers one line per Scan unless the line reaches its token limit (64 KB unless Buffer raises it), after which Scan reports false; bufio.Reader.ReadLine hands out pieces of at most 4096 bytes", "lines that call the input built-in are outside the property's pool"],
